@@ -102,6 +102,44 @@ except ValueError:
     pass
 
 
+class GCounter:
+    def __init__(self):
+        self.n = 0
+
+    def incr(self, k=1):
+        self.n += k
+        return self.n
+
+    def value(self):
+        return self.n
+
+
+class GStack:
+    def __init__(self):
+        self.items = []
+
+    def push(self, x):
+        self.items.append(x)
+        return len(self.items)
+
+    def pop(self):
+        return self.items.pop()
+
+    def value(self):
+        return list(self.items)
+
+
+def make_gadget(kind):
+    """One typeid, a factory: the hosted objects differ in class, hence in their methods."""
+    return GCounter() if kind == 'counter' else GStack()
+
+
+try:
+    ServerProcess.register('Gadget', callable=make_gadget)
+except Exception:  # already registered (re-import)
+    pass
+
+
 class Shelf:
     """Registered with method_to_typeid: `items_proxy` returns the plain list, the server hosts it and hands out a proxy."""
 
